@@ -180,3 +180,264 @@ pub fn c17(ctx: &Ctx) {
         w,
     );
 }
+
+// ------------------------------------------------------------------------------------------ C16
+fn c16_nontrivial(f: &BTreeSet<String>) -> bool {
+    has(f, "batch_spans_rotation") || has(f, "batchread_in_sealed_with_tail") || (has(f, "rotation") && has(f, "batch_read_used"))
+}
+
+fn c16_mix() -> Mix {
+    Mix { append: 24, batch: 14, batch_many: 1, read_next: 12, batch_read: 18, peek: 5, stateless: 6, count: 4, reopen: 4, reject: 3, ..Mix::consuming() }
+}
+
+/// Run the abstract case on the FD backend, then replay exactly the same concrete steps on the
+/// mmap backend and compare every response.
+fn c16_run(prop: &str, case: &Case, excl: &BTreeSet<String>) -> CaseReport {
+    let enabled = vec![Oracle::Backend, Oracle::Crash];
+    let mut o1 = RunOpts::default();
+    o1.exclude = excl.clone();
+    o1.force_fd = Some(true);
+    let a = run_case(case, o1.clone(), &[Oracle::Crash], true);
+    let mut o2 = o1.clone();
+    o2.force_fd = Some(false);
+    let b = replay_steps(&case.cfg, &a.steps, o2, &[Oracle::Crash]);
+    let mut rep = CaseReport::default();
+    rep.features = a.features.clone();
+    rep.excluded = a.excluded.clone();
+    rep.nontrivial = c16_nontrivial(&a.features);
+    rep.inconclusive = a.inconclusive.clone().or(b.inconclusive.clone());
+    rep.sample = Some(json!({"cfg": case.cfg, "steps": a.n_steps, "first_steps_fd": a.trace.iter().take(10).collect::<Vec<_>>(), "features": a.features}));
+    if rep.inconclusive.is_some() {
+        return rep;
+    }
+    // a crash on either side (without the other) is a difference as well; a crash on both sides
+    // with the same message is another property's business
+    let mut diff: Option<String> = None;
+    let n = a.full_obs.len().max(b.full_obs.len());
+    for i in 0..n {
+        let x = a.full_obs.get(i);
+        let y = b.full_obs.get(i);
+        if x != y {
+            let cut = |s: Option<&String>| s.map(|s| s.chars().take(400).collect::<String>()).unwrap_or_else(|| "(nothing: run ended)".into());
+            diff = Some(format!("step {}: fd backend: {} | mmap backend: {}", i, cut(x), cut(y)));
+            break;
+        }
+    }
+    if diff.is_none() {
+        let va = a.violation.as_ref().map(|v| v.msg.clone());
+        let vb = b.violation.as_ref().map(|v| v.msg.clone());
+        if va.is_some() != vb.is_some() {
+            diff = Some(format!("one backend failed: fd={:?} mmap={:?}", va, vb));
+        }
+    }
+    if let Some(d) = diff {
+        let body = json!({
+            "kind": "c16",
+            "property": prop,
+            "cfg": case.cfg,
+            "steps": a.steps,
+            "exclude": excl,
+            "abstract_case": case,
+            "difference": d,
+        });
+        rep.violation = Some((format!("[Backend] {}", d), body));
+    }
+    let _ = enabled;
+    rep
+}
+
+pub fn c16_replay(body: &Value) -> Result<Option<String>, String> {
+    let cfg: Cfg = serde_json::from_value(body.get("cfg").cloned().ok_or("no cfg")?).map_err(|e| e.to_string())?;
+    let steps: Vec<Step> = serde_json::from_value(body.get("steps").cloned().ok_or("no steps")?).map_err(|e| e.to_string())?;
+    let mut o1 = RunOpts::default();
+    o1.force_fd = Some(true);
+    let a = replay_steps(&cfg, &steps, o1.clone(), &[Oracle::Crash]);
+    let mut o2 = o1;
+    o2.force_fd = Some(false);
+    let b = replay_steps(&cfg, &steps, o2, &[Oracle::Crash]);
+    if let Some(i) = a.inconclusive.or(b.inconclusive) {
+        return Err(i);
+    }
+    for i in 0..a.full_obs.len().max(b.full_obs.len()) {
+        if a.full_obs.get(i) != b.full_obs.get(i) {
+            return Ok(Some(format!("[Backend] step {}: fd: {:?} | mmap: {:?}", i, a.full_obs.get(i), b.full_obs.get(i))));
+        }
+    }
+    Ok(None)
+}
+
+pub fn c16(ctx: &Ctx) {
+    regress_and_probes(ctx);
+    let excl = exclusions_for("C16");
+    let w = cores();
+    let q = ctx.tier == Tier::Quick;
+    let plans: Vec<(&str, SizeProfile, std::ops::Range<usize>, usize)> = vec![
+        ("tiny", SizeProfile::Tiny, 10..90, if q { 500 } else { 12_000 }),
+        ("block", SizeProfile::Block, 6..24, if q { 140 } else { 5_000 }),
+        ("multi", SizeProfile::Multi, 5..14, if q { 40 } else { 1_500 }),
+    ];
+    for (name, prof, nops, cases) in plans {
+        let prop = ctx.prop.clone();
+        let excl2 = excl.clone();
+        let nops2 = nops.clone();
+        let s = Search {
+            name: name.to_string(),
+            strategy: Box::new(move || case_strategy(c16_mix(), prof, nops2.clone(), 3, mode_strategy())),
+            run: Box::new(move |case: &Case| c16_run(&prop, case, &excl2)),
+            cases,
+            workers: w,
+            max_shrink_iters: 300,
+            shrink_secs: 240,
+        };
+        run_search(ctx, &s);
+    }
+}
+
+// ------------------------------------------------------------------------------------------ C02
+fn c02_nontrivial(f: &BTreeSet<String>) -> bool {
+    has(f, "peek_at_block_end") || has(f, "stateless_ck_true_alo") || (has(f, "peek_pair_checked") && has(f, "rotation")) || (has(f, "stateless_read") && has(f, "rotation"))
+}
+
+fn c02_mix() -> Mix {
+    Mix { append: 24, batch: 10, batch_many: 1, read_next: 12, batch_read: 14, peek: 18, stateless: 14, count: 5, reopen: 0, reject: 0, ..Mix::consuming() }
+}
+
+fn c02_enabled() -> Vec<Oracle> {
+    vec![Oracle::Peek, Oracle::Stateless, Oracle::Erasure, Oracle::Crash]
+}
+
+/// All three relations on one abstract case.
+///  * run A: the history as generated, every peek followed by its consuming twin (relation 1),
+///    offset reads checked for content (relation 3);
+///  * run B: the history as generated (no twins);  run C: the history with every non-consuming
+///    read erased. B and C must agree on every consuming result, count, the number of WAL files
+///    and the tracker view after a full drain (relation 2). A model divergence (content,
+///    progress, count) in A or B is attributed to C02 only if C - the same history without the
+///    non-consuming reads - does not diverge; otherwise it is another property's business.
+fn c02_erasure_run(prop: &str, case: &Case, excl: &BTreeSet<String>) -> CaseReport {
+    let all = vec![Oracle::Peek, Oracle::Stateless, Oracle::Content, Oracle::Progress, Oracle::Count, Oracle::Cap, Oracle::Budget, Oracle::ReadErr, Oracle::Crash];
+    let mut oa = RunOpts::default();
+    oa.exclude = excl.clone();
+    oa.peek_pairs = true;
+    let a = run_case(case, oa.clone(), &all, true);
+    let mut ob = RunOpts::default();
+    ob.exclude = excl.clone();
+    ob.final_obs = true;
+    let b = run_case(case, ob.clone(), &all, true);
+    let mut oc = ob.clone();
+    oc.erase_nonconsuming = true;
+    let c = run_case(case, oc, &all, true);
+
+    let mut feats = a.features.clone();
+    feats.extend(b.features.iter().cloned());
+    let mut merged = a.clone();
+    merged.features = feats;
+    let mut rep = e1_report(prop, case, merged, &oa, &c02_enabled(), c02_nontrivial);
+    rep.violation = None;
+    rep.inconclusive = a.inconclusive.clone().or(b.inconclusive.clone()).or(c.inconclusive.clone());
+    if rep.inconclusive.is_some() {
+        return rep;
+    }
+    let mk = |d: String, which: &str, out: &Outcome| {
+        let body = json!({
+            "kind": "c02-erasure",
+            "property": prop,
+            "cfg": case.cfg,
+            "abstract_case": case,
+            "exclude": excl,
+            "difference": d,
+            "run": which,
+            "trace_tail": out.trace.iter().rev().take(30).rev().collect::<Vec<_>>(),
+        });
+        (format!("[C02] {}", d), body)
+    };
+    // direct relations
+    for (which, out) in [("with-peek-pairs", &a), ("as-generated", &b)] {
+        if let Some(v) = &out.violation {
+            match v.oracle {
+                Oracle::Peek | Oracle::Stateless => {
+                    rep.violation = Some(mk(format!("{:?}: {}", v.oracle, v.msg), which, out));
+                    return rep;
+                }
+                _ => {
+                    if c.violation.is_none() {
+                        rep.violation = Some(mk(
+                            format!(
+                                "{:?}: {} -- the same history without its non-consuming reads shows no such divergence, so a peek / offset-addressed read changed what later reads or counts see",
+                                v.oracle, v.msg
+                            ),
+                            which,
+                            out,
+                        ));
+                        return rep;
+                    } else {
+                        rep.features.insert("diverged_also_without_nonconsuming".into());
+                        return rep;
+                    }
+                }
+            }
+        }
+    }
+    if c.violation.is_some() {
+        rep.features.insert("diverged_only_without_nonconsuming".into());
+        return rep;
+    }
+    let n = b.obs.len().max(c.obs.len());
+    for i in 0..n {
+        if b.obs.get(i) != c.obs.get(i) {
+            let cut = |s: Option<&String>| s.map(|s| s.chars().take(300).collect::<String>()).unwrap_or_else(|| "(nothing)".into());
+            let d = format!(
+                "observation {} differs between the history with peeks/offset reads and the same history without them: with: {} | without: {}",
+                i,
+                cut(b.obs.get(i)),
+                cut(c.obs.get(i))
+            );
+            rep.violation = Some(mk(d, "as-generated", &b));
+            break;
+        }
+    }
+    rep
+}
+
+pub fn c02_erasure_replay(body: &Value) -> Result<Option<String>, String> {
+    let case: Case = serde_json::from_value(body.get("abstract_case").cloned().ok_or("no case")?).map_err(|e| e.to_string())?;
+    let mut excl = BTreeSet::new();
+    if let Some(a) = body.get("exclude").and_then(|x| x.as_array()) {
+        for s in a {
+            if let Some(s) = s.as_str() {
+                excl.insert(s.to_string());
+            }
+        }
+    }
+    let rep = c02_erasure_run("C02", &case, &excl);
+    if let Some(i) = rep.inconclusive {
+        return Err(i);
+    }
+    Ok(rep.violation.map(|v| v.0))
+}
+
+pub fn c02(ctx: &Ctx) {
+    regress_and_probes(ctx);
+    let excl = exclusions_for("C02");
+    let w = cores();
+    let q = ctx.tier == Tier::Quick;
+    let plans: Vec<(&str, SizeProfile, std::ops::Range<usize>, usize)> = vec![
+        ("tiny", SizeProfile::Tiny, 10..80, if q { 420 } else { 10_000 }),
+        ("block", SizeProfile::Block, 6..22, if q { 110 } else { 4_000 }),
+    ];
+    for (name, prof, nops, cases) in plans {
+        let prop = ctx.prop.clone();
+        let excl2 = excl.clone();
+        let nops2 = nops.clone();
+        let s = Search {
+            name: name.to_string(),
+            strategy: Box::new(move || case_strategy(c02_mix(), prof, nops2.clone(), 3, mode_strategy())),
+            run: Box::new(move |case: &Case| c02_erasure_run(&prop, case, &excl2)),
+            cases,
+            workers: w,
+            max_shrink_iters: 200,
+            shrink_secs: 240,
+        };
+        run_search(ctx, &s);
+    }
+}
